@@ -116,6 +116,15 @@ func (g *gen) policyScenario(w *world, pa, pb int, form int) {
 			l.enqueue(a, ts)
 		}
 		run()
+		// a whitespace tag offer to a peer that starts the AKE on tags must end in the highest common version
+		if pa&6 != 0 && pa&16 != 0 && pa&8 == 0 && pb&32 != 0 {
+			if mc := maxCommon(pa, pb); mc != 0 {
+				va, vb := otr3.VerifSnapshot(a.c).Version, otr3.VerifSnapshot(b.c).Version
+				if !a.c.IsEncrypted() || !b.c.IsEncrypted() || va != mc || vb != mc {
+					olog.viol("C16", "wrong-version-negotiated", fmt.Sprintf("whitespace tag offer, policies %d/%d share version %d but ended encA=%v encB=%v versions %d/%d", pa, pb, mc, a.c.IsEncrypted(), b.c.IsEncrypted(), va, vb))
+				}
+			}
+		}
 	case 1: // explicit query
 		l.enqueue(a, []otr3.ValidMessage{w.query(a)})
 		run()
